@@ -15,7 +15,7 @@ TECHNIQUE = ('runtime monitoring: brute-force / independent-DP oracle on every e
              'align_text, numba bounds-checking sanitizer (NUMBA_BOUNDSCHECK=1) and JIT-vs-interpreter differential')
 RULE = ('cost matrices T(1-40, float32 up to 400) x C(2-8), float64 and float32 (as the networks deliver them, with and without a large common offset), any blank index, labels of length 1..T+1 incl. immediate repeats; classes: continuous, small-integer '
         '(ties), with +inf entries, at the feasibility boundary T = L + repeats (+-1), small (brute force over all C^T labellings), blank among '
-        'labels. non-trivial = a finite-cost alignment exists and T > L (some freedom); distinct = hash of (matrix, labels, blank) Negative blank index; alphabets of 130-300 classes with narrow integer label arrays; other memory layouts / label containers of the same numbers.')
+        'labels. non-trivial = a finite-cost alignment exists and T > L (some freedom); distinct = hash of (matrix, labels, blank) Negative blank index; alphabets of 130-300 classes with narrow integer label arrays; other memory layouts / label containers of the same numbers. Labels addressed from the end; lines of 33000-68000 frames; costs of 1e39-1e300.')
 ASSUMPTIONS = ['"no alignment exists" is read as "no alignment of finite total cost" (subsumes too few frames and blank among labels)',
                'failure must be reported as ValueError (the documented exception)',
                'ties: any optimal alignment is accepted (costs are compared, not paths)']
@@ -46,7 +46,7 @@ def gen(rng, i, ctx=None):
         T = int(rng.integers(1, 25))
     if cls == 'very_long':
         # a line of more frames than a 16-bit index can address (rare; the oracle needs about a second for it), otherwise an ordinary long line
-        T = int(rng.integers(33000, 36000)) if (i // len(CLASSES)) % 30 == 0 else int(rng.integers(100, 400))
+        T = int(rng.choice([rng.integers(33000, 36000), rng.integers(66000, 68000)])) if (i // len(CLASSES)) % 30 == 0 else int(rng.integers(100, 400))
         C = int(rng.integers(2, 5))
     blank = int(rng.integers(0, C)) if cls != 'large_alphabet' or rng.random() < 0.3 else C - 1
     nonblank = [c for c in range(C) if c != blank]
